@@ -88,7 +88,7 @@ def scenarios(tier, seed):
         def run(v, O):
             A = Magnitude(v.a, v.ea)
             return [('k/a:nonneg', O.ge((v.k / A).error, 0)), ('K/a:nonneg', O.ge((Magnitude(v.k) / A).error, 0))]
-        ''', {'a': 'real', 'ea': 'real', 'k': 'real'}, ['v.ea >= 0', 'v.a != 0'], preamble=PRE, what='exact number over an uncertain magnitude'))
+        ''', {'a': 'real', 'ea': 'real', 'k': 'real'}, ['v.ea >= 0', 'v.a != 0', 'v.a - v.ea != 0', 'v.a + v.ea != 0'], preamble=PRE, what='exact number over an uncertain magnitude (the divisor interval does not end at zero)'))
     S.append(Scenario('mul/nonneg', '''
         def run(v, O):
             A = Magnitude(v.a, v.ea); B = Magnitude(v.b, v.eb)
@@ -104,7 +104,7 @@ def scenarios(tier, seed):
         def run(v, O):
             A = Magnitude(v.a, v.ea); B = Magnitude(v.b, v.eb)
             return [('a/b:nonneg', O.ge((A / B).error, 0))]
-        ''', R4, E2 + ['v.b != 0'], preamble=PRE, what='quotient of two uncertain magnitudes'))
+        ''', R4, E2 + ['v.b != 0', 'v.b - v.eb != 0', 'v.b + v.eb != 0'], preamble=PRE, what='quotient of two uncertain magnitudes (the divisor interval does not end at zero)'))
     S.append(Scenario('div/first-order', '''
         def run(v, O):
             A = Magnitude(v.a, v.ea); B = Magnitude(v.b, v.eb)
@@ -312,4 +312,4 @@ def tasks(tier, seed):
 def run_task(task):
     S = scenarios(task['tier'], task['seed'])
     i, k = task['slice']
-    return run_scenarios(S[i::k], unitkit.units_patches, timeout_ms=20000, seed=task['seed'])
+    return run_scenarios(S[i::k], unitkit.units_patches, timeout_ms=20000, seed=task['seed'], div_zero='fork')
